@@ -58,12 +58,16 @@ def generate(crate_dir, extra_cfg_test=None):
         for rx, rep in SUBS:
             text, n = rx.subn(rep, text)
             nsub += n
-        hname = m.replace("/", "_") + ".rs"
-        hpath = os.path.join(harness, hname)
-        if os.path.exists(hpath):
-            with open(hpath, "r", encoding="utf-8") as f:
-                text += "\n\n// ---- appended by /verif/lib/gen.py from %s ----\n" % hpath
-                text += f.read()
+        hbase = m.replace("/", "_")
+        hfiles = [hbase + ".rs"]
+        if os.path.isdir(harness):
+            hfiles += sorted(f for f in os.listdir(harness) if f.startswith(hbase + "__") and f.endswith(".rs"))
+        for hname in hfiles:
+            hpath = os.path.join(harness, hname)
+            if os.path.exists(hpath):
+                with open(hpath, "r", encoding="utf-8") as f:
+                    text += "\n\n// ---- appended by /verif/lib/gen.py from %s ----\n" % hpath
+                    text += f.read()
         out = os.path.join(gen, m + ".rs")
         old = None
         if os.path.exists(out):
